@@ -552,6 +552,7 @@ func (vc *VC) load(st *State, addr *SV, t types.Type, hint string) *SV {
 			v.Cands = append([]types.Type{}, sh.Cands...)
 		} else {
 			v.Cands = append([]types.Type{}, vc.boxedTypes...)
+			v.Guess = true
 		}
 	}
 	return v
